@@ -186,8 +186,13 @@ Proof. unfold qnat. change 0 with (inject_Z 0). rewrite <- Zle_Qle. lia. Qed.
 Lemma qnat_pos k : (1 <= k)%nat -> 0 < qnat k.
 Proof. intros H. unfold qnat. change 0 with (inject_Z 0). rewrite <- Zlt_Qlt. lia. Qed.
 
+Lemma pow2_nregions n : pow2 n = qnat (nregions n).
+Proof.
+  unfold pow2, qnat, nregions. f_equal. rewrite Nat2Z.inj_pow. reflexivity.
+Qed.
+
 Lemma pow2_pos n : 0 < pow2 n.
-Proof. apply qnat_pos. apply nregions_pos. Qed.
+Proof. rewrite pow2_nregions. apply qnat_pos. apply nregions_pos. Qed.
 
 Lemma edge_S n s k : edge n s (S k) == edge n s k + rwidth n s.
 Proof. unfold edge. rewrite qnat_S. ring. Qed.
@@ -197,7 +202,7 @@ Proof. unfold edge, qnat. simpl. ring. Qed.
 
 Lemma edge_top n s : edge n s (nregions n) == s_last s.
 Proof.
-  unfold edge, rwidth, srange. fold (pow2 n).
+  unfold edge, rwidth, srange. rewrite <- pow2_nregions.
   assert (H := pow2_pos n). field. lra.
 Qed.
 
